@@ -95,7 +95,8 @@ func (r *rule) match(path string) (bool, error) {
 }
 
 func (r *rule) compile() error {
-	regStr := "^"
+	// "s": a file name may contain a line break, and "**" has to match across it.
+	regStr := "(?s)^"
 	pattern := r.val
 	// Go through the pattern and convert it to a regexp.
 	// Use a scanner to support utf-8 chars.
